@@ -64,10 +64,15 @@ type honestCase struct {
 	thirdType  string
 	proI, proR []byte // overrides the table when non-nil or proCustom
 	proCustom  bool
+	xi, xr     peer.ID // the named ID when ei / er is one of namedKinds (arbitrary non-empty bytes, never the genuine ID)
 }
 
 func (c honestCase) key() string {
-	return fmt.Sprintf("%s|%s>%s|%s|%s|%s|%v|%s|%x|%x", c.proto, c.ti, c.tr, c.ei, c.er, prologuePairs[c.pro].name, c.session, c.thirdType, c.proI, c.proR)
+	k := fmt.Sprintf("%s|%s>%s|%s|%s|%s|%v|%s|%x|%x", c.proto, c.ti, c.tr, c.ei, c.er, prologuePairs[c.pro].name, c.session, c.thirdType, c.proI, c.proR)
+	if c.xi != "" || c.xr != "" {
+		k += fmt.Sprintf("|named:%x|%x", string(c.xi), string(c.xr))
+	}
+	return k
 }
 
 // runHonest runs one honest case inside a bubble and applies the oracle.
@@ -84,6 +89,15 @@ func runHonest(t *testing.T, rt *rapid.T, c honestCase) (nontrivial bool, labels
 	}
 	a := &side{Me: ia, Initiator: true, Kind: c.ei.kind, Disable: c.ei.disable, Expect: expectID(c.ei.kind, ia, ib, third), Prologue: pi, Session: c.session}
 	b := &side{Me: ib, Initiator: false, Kind: c.er.kind, Disable: c.er.disable, Expect: expectID(c.er.kind, ib, ia, third), Prologue: pr, Session: c.session}
+	if isNamedKind(c.ei.kind) {
+		a.Expect = c.xi
+	}
+	if isNamedKind(c.er.kind) {
+		b.Expect = c.xr
+	}
+	if a.Expect == ib.ID && c.ei.kind != "match" || b.Expect == ia.ID && c.er.kind != "match" || (a.Expect == "") != (c.ei.kind == "empty") || (b.Expect == "") != (c.er.kind == "empty") {
+		bail("harness: expected-peer setting %s/%s does not have the shape its class promises", c.ei, c.er)
+	}
 	nonce := mkNonce(uint64(len(c.key())))
 	var oa, ob *outcome
 	bubble(t, rt, func() {
@@ -116,6 +130,12 @@ func runHonest(t *testing.T, rt *rapid.T, c honestCase) (nontrivial bool, labels
 		f.Fatalf("%s: the TLS server rejected the handshake (%v) but the client's first Read succeeded", ctx, ob.hsErr)
 	}
 	labels = []string{c.proto, "init-key:" + c.ti, "resp-key:" + c.tr, "init-exp:" + c.ei.String(), "resp-exp:" + c.er.String()}
+	// the named-ID dimension: how often a side names a peer by a byte string that is not the genuine ID, and of what shape
+	for _, s := range []*side{a, b} {
+		if s.Expect != "" && s.Expect != map[bool]peer.ID{true: ib.ID, false: ia.ID}[s.Initiator] {
+			labels = append(labels, "named-wrong:"+c.proto+"/"+map[bool]string{true: "outbound", false: "inbound"}[s.Initiator]+"/"+namedShape(s.Expect))
+		}
+	}
 	if c.proto == pNoise {
 		pl := prologuePairs[c.pro].name
 		if c.proCustom {
@@ -172,6 +192,20 @@ func TestHonestMatrix(t *testing.T) {
 					cases = append(cases, honestCase{proto: pTLS, ti: ti, tr: tr, ei: ei, er: er, thirdType: keys.Types[(i+j)%4]})
 				}
 			}
+			// the named peer as a byte string that is not the genuine ID (truncated, stray byte, corrupted
+			// multihash header, flipped bit, free-form label, arbitrary bytes): each class x 2 representatives on
+			// either side, the other side naming the genuine peer (v=0) or nobody (v=1); equal prologues
+			for _, proto := range []string{pNoise, pTLS} {
+				for _, kind := range namedKinds {
+					for v := 0; v < namedVariants; v++ {
+						good := expSetting{kind: []string{"match", "empty"}[v]}
+						bad := expSetting{kind: kind}
+						cases = append(cases,
+							honestCase{proto: proto, ti: ti, tr: tr, ei: bad, er: good, pro: 1, thirdType: ti, xi: fixedNamedID(kind, keys.Get(tr, 1).ID, v)},
+							honestCase{proto: proto, ti: ti, tr: tr, ei: good, er: bad, pro: 1, thirdType: ti, xr: fixedNamedID(kind, keys.Get(ti, 0).ID, v)})
+					}
+				}
+			}
 		}
 	}
 	for k, c := range cases {
@@ -200,9 +234,18 @@ func TestHonestRandom(t *testing.T) {
 			tr:        rapid.SampledFrom(keys.Types).Draw(rt, "tr"),
 			thirdType: rapid.SampledFrom(keys.Types).Draw(rt, "third"),
 		}
-		kinds := []string{"match", "match", "other", "self", "empty"}
+		// "named": a drawn non-empty byte string of one of namedKinds, derived from the genuine remote's ID
+		kinds := []string{"match", "match", "other", "self", "empty", "named", "named"}
 		c.ei = expSetting{kind: rapid.SampledFrom(kinds).Draw(rt, "ei")}
 		c.er = expSetting{kind: rapid.SampledFrom(kinds).Draw(rt, "er")}
+		if c.ei.kind == "named" {
+			c.ei.kind = rapid.SampledFrom(namedKinds).Draw(rt, "ei-class")
+			c.xi = drawNamedID(rt, c.ei.kind, keys.Get(c.tr, 1).ID, "ei")
+		}
+		if c.er.kind == "named" {
+			c.er.kind = rapid.SampledFrom(namedKinds).Draw(rt, "er-class")
+			c.xr = drawNamedID(rt, c.er.kind, keys.Get(c.ti, 0).ID, "er")
+		}
 		if c.proto == pNoise {
 			c.ei.disable = rapid.IntRange(0, 3).Draw(rt, "di") == 0
 			c.er.disable = rapid.IntRange(0, 3).Draw(rt, "dr") == 0
